@@ -58,7 +58,7 @@ def keyIdxs : List (Option Nat) := [none, some 1, some 5, some 12, some 13, some
 def memsFull (size : Nat) : List Mem := memShapes allBases allIdxs [1, 2, 4, 8] dispValues [false, true] size
 def memsKey (size : Nat) : List Mem := memShapes keyBases keyIdxs [1, 2, 8] dispFew [false] size ++
   memShapes [some 3, some 5, some 9] [none, some 6, some 13] [4] [0, 0x44] [true] size
-def memsMid (size : Nat) : List Mem := memShapes [none, some 0, some 4, some 5, some 12, some 13] [none, some 1, some 13] [1, 4] [0, 8, -0x81] [false] size ++
+def memsMid (size : Nat) : List Mem := memShapes [none, some 0, some 4, some 5, some 12, some 13] [none, some 1, some 12, some 13] [1, 4] [0, 8, -0x81] [false] size ++
   memShapes [some 3, some 13] [none, some 6, some 9] [2] [0x44] [true] size ++
   memShapes [some 0] [some 13] [1, 8] [0] [true] size       -- extended 32-bit index registers (REX.X / VEX.X with 0x67)
 /-- a stack pointer written as the second register: `[base+rsp]`, `[base+rsp+disp]` (the NASM index/base swap; with
@@ -71,7 +71,9 @@ def memsSwap (size : Nat) : List Mem :=
 def memsLoneSp (size : Nat) : List Mem :=
   ([0, 8, -0x81].map fun d => mkMem size false none (some 4) 1 d) ++ [mkMem size true none (some 4) 1 8]
 
-def memsFew (size : Nat) : List Mem := [mkMem size false (some 3) none 1 0, mkMem size false (some 13) (some 1) 4 (-0x20)]
+/-- (with rbp / r13 as base and no displacement: the encoding needs a zero disp8 of its own, next to the immediate) -/
+def memsFew (size : Nat) : List Mem := [mkMem size false (some 3) none 1 0, mkMem size false (some 13) (some 1) 4 (-0x20),
+  mkMem size false (some 5) none 1 0, mkMem size false (some 13) none 1 0, mkMem size true (some 5) (some 1) 2 0]
 
 def noMems (_ : Nat) : List Mem := []
 
